@@ -127,7 +127,7 @@ Definition compile_log (se : senv) (name : str) : option (list logent) :=
   | _ => None
   end.
 
-(* a 2-file world for the remark about if_exists in Props/C11f.v:
+(* a 2-file world for the example about if_exists and an inner error in Props/C11.v (fix D41):
    m = {% include "a" if_exists %},  a = {% include "nope" %}  (nope is nowhere) *)
 Definition fy_files : list (str * str) :=
   [([109] (* m *),
